@@ -37,10 +37,77 @@ PROPS["C33"] = dict(
     note="Trusted: TLC, the Json module, the keyframe regex/decimal parser in the driver.")
 
 
+# ---------------------------------------------------------------------------------- fs (C48, C34)
+def _prebuild_d2():
+    import core
+    core.build_d2()
+
+
+def corrupt_fs(lines, pid):
+    if pid == "C48":
+        # make a completed atomic/plain run "lose" its last write: the file is then partial at exit
+        for k, e in enumerate(lines):
+            if e.get("ev") == "sys" and e.get("call") == "write" and e["n"] > 1:
+                e["n"] -= 1
+                return "one byte dropped from a write of %s" % e["path"]
+        return None
+    if pid == "C34":
+        for e in lines:
+            if e.get("ev") == "exit" and e.get("changed") and len(e["changed"]) > 1:
+                e["changed"][0] = ["L1", "ESCAPED.svg"]
+                return "one written file relocated outside the output directory"
+        return None
+
+
+import os as _os
+_D2 = _os.path.join(_os.path.dirname(_os.path.dirname(_os.path.abspath(__file__))), ".build", "d2")
+FAMILIES["fs"] = dict(vdrive="fs", trace_module="TraceFSWrite", trace_cfg="TraceFSWrite.cfg", corrupt=corrupt_fs,
+                      prebuild=_prebuild_d2, args={"d2": _D2}, engine="TraceFSWrite")
+
+PROPS["C48"] = dict(
+    family="fs", level="model_checking", design_ref="4.3", args={"modes": "fmt,render"},
+    technique="TLA+ file-system model of the write protocols with a Crash action at every system call (TLC); strace-recorded system calls of the real `d2 fmt` / `d2 in out.svg` replayed on the model by TLC, Atomicity evaluated after every call; real SIGKILLs at those calls",
+    base=dict(quick=[dict(module="FSWrite", cfg="FSWrite_atomic.cfg"),
+                     dict(module="FSWrite", cfg="FSWrite_plain.cfg", expect="violation", note="os.WriteFile protocol (d2 fmt before the fix) must break Atomicity")],
+              thorough=[dict(module="FSWrite", cfg="FSWrite_atomic.cfg"),
+                        dict(module="FSWrite", cfg="FSWrite_plain.cfg", expect="violation")]),
+    rule="one trace per command run: `d2 fmt f.d2` on unformatted sources of several sizes, `d2 in.d2 out.svg` with and without an existing out.svg; plus one trace per real SIGKILL "
+         "(strace inject at the per-thread ordinal of each sandbox system call). Every system-call prefix of a run is a crash point. Non-trivial: the run made at least one modifying call in the sandbox, or the process was really killed.",
+    exhaustive=dict(quick=False, thorough=False),
+    assumptions=["single sequential writer: the disk state after calls 1..i is what a kill before call i+1 leaves (no fsync/power-loss reordering is modelled)",
+                 "strace -f -y output is parsed by harness/cmd/vdrive/fs.go; only calls on paths inside the sandbox are kept",
+                 "a file created/truncated by the command and grown to NewLen bytes holds the new content (confirmed byte-for-byte for the completed run)",
+                 "kill points are reached opportunistically (strace counts per thread); coverage achieved is reported in driver_extra, unreached points are covered by the prefix argument only"],
+    text="TLC proves Atomicity for the temp+rename protocol at every crash point and refutes it for open(O_TRUNC)+write; the real binary's system calls are replayed by TLC on the same FS model "
+         "with the invariant evaluated after every call, and the file really left behind by SIGKILL at those calls is compared with the model.",
+    note="Trusted: TLC, Json module, strace and its parser in the driver, the FSOps abstraction of POSIX calls.")
+
+PROPS["C34"] = dict(
+    family="fs", level="model_checking", design_ref="4.3", args={"modes": "boards"},
+    technique="TLA+ transcription of the board-to-file path derivation checked by TLC over all board trees within bounds (injectivity, containment, no late delete); strace traces and before/after directory snapshots of the real CLI on generated board trees validated by TLC",
+    base=dict(quick=[dict(module="BoardPaths", cfg="BoardPaths_plain.cfg"),
+                     dict(module="BoardPaths", cfg="BoardPaths_escaped.cfg"),
+                     dict(module="BoardPaths", cfg="BoardPaths_code.cfg", expect="violation", note="names read as paths escape the output directory"),
+                     dict(module="BoardPaths", cfg="BoardPaths_index.cfg", expect="violation", note="a board named index collides with its parent's index file")],
+              thorough=[dict(module="BoardPaths", cfg="BoardPaths_plain.cfg"),
+                        dict(module="BoardPaths", cfg="BoardPaths_escaped.cfg"),
+                        dict(module="BoardPaths", cfg="BoardPaths_code.cfg", expect="violation"),
+                        dict(module="BoardPaths", cfg="BoardPaths_index.cfg", expect="violation")]),
+    rule="board trees of depth <= 2 (1-3 boards per level, kinds layers/scenarios/steps) with names from {a,b,index,layers,a.b,a/b,..,../x,'x y',.,x/index,scenarios}: 11 fixed trees plus seeded random trees "
+         "(14 quick / 400 thorough), each rendered by the real CLI into a 6-level sentinel sandbox. Non-trivial: the CLI exited 0 and made modifying calls.",
+    exhaustive=dict(quick=False, thorough=False),
+    assumptions=["the output location of `d2 in.d2 out.svg` for a multi-board diagram is the directory out/ next to it",
+                 "boards rendered = boards of the compiled diagram that are not folder-only (computed with d2lib from the same source)"],
+    text="The path derivation is a function over board trees; TLC enumerates all trees within the bounds and checks OneFilePerBoard/Contained/NoLateDelete, and every modifying system call, changed file "
+         "and deleted file of the real CLI is checked by TLC against the output directory.",
+    note="Trusted: TLC, Json module, strace parser, directory snapshot code in the driver.")
+
+
 # ------------------------------------------------------------------------------- manifest data
 HOOK_COMMITS = []
 
 ENGINES = {
+    "TraceFSWrite": dict(path="specs/FSOps.tla, specs/FSWrite.tla, specs/BoardPaths.tla, specs/TraceFSWrite.tla", kind="TLA+ POSIX file-system model + write protocols with Crash (TLC), board-to-file path derivation (TLC), TLC validation of strace-recorded system calls of the real d2 binary"),
     "TraceD2Anim": dict(path="specs/D2Anim.tla, specs/AnimOps.tla, specs/TraceD2Anim.tla", kind="TLA+ clock model of the animated SVG cycle (TLC, safety+liveness) + TLC trace validation of the key frames emitted by d2animate.Wrap"),
 }
 
